@@ -396,7 +396,7 @@ theorem readRaw_whole (m rest : Bytes) (cs : Go.Stream) (h13 : 13 ≤ m.length) 
   simp only [List.nil_append] at h1
   rw [h1]
   simp only [announced_hdr' m.length hmax]
-  have : ¬ m.length ≤ 12 := by omega
+  have : ¬ m.length < 12 := by omega
   simp only [this, if_false]
   obtain ⟨c2, h2, h2f⟩ := Lemmas.Stream.readFullAux_spec c1 m.length [] m rest h1f rfl
   simp only [List.nil_append] at h2
